@@ -156,6 +156,10 @@ func (r *reconcile) updateGlobalCuntFlowControls() {
 		if localConfig.Strategy != proxyv1alpha1.GlobalCountLimit {
 			continue
 		}
+		if !EnableGlobalFlowControl(localConfig) {
+			// no global limit configured: there is nothing to count against, the local limiter stays in charge
+			continue
+		}
 
 		itemConfig := proxyv1alpha1.RateLimitItemConfiguration{
 			Name:     name,
@@ -225,6 +229,10 @@ func (r *reconcile) updateFlowControls(condition *proxyv1alpha1.RateLimitConditi
 			localConfig := fcCache.LocalFlowControl().Config()
 			if !EnableGlobalFlowControl(localConfig) {
 				return requestReasonGlobalFlowControlDisable
+			}
+			if config.MaxRequestsInflight == nil && config.TokenBucket == nil {
+				// an answer without any limit can not be applied
+				return requestReasonSkipped
 			}
 
 			if fcCache.FlowControl() == nil {
